@@ -1,15 +1,133 @@
-"""C10  Circuit composition computes the documented functional composition
+"""C10  Circuit composition computes the documented functional composition.
 
-P: (deductive obligations for this property are added in vlib/props/C10.py as they are built)
-B: vlib/bounded/C10.py (bounded stand-in; never counted as proved)."""
+P: the five wrappers (connect_left, connect_right, connect_inputs, extend_circuit, add_circuit) are exactly the
+   documented special cases of connect_circuit — for arbitrary circuits and arbitrary (possibly empty) connector
+   sequences the call they make to connect_circuit carries the documented arguments (explicit empty lists are
+   passed through, None is defaulted from the interface lists), and they return its result.
+B: connect_circuit itself and all wrappers on enumerated pairs against the composition oracle (vlib/bounded/C10.py).
+The 140-line connect_circuit has no deductive obligation in this build (string prefixes, two mappings, a generator
+over the other circuit): its contract is the bounded layer's."""
+import z3
+
 from .. import env
-from .common import STD_TRUSTED, STD_ASSUME, run_bounded
+from ..pyvc.values import Sym, LabelSort, Obj
+from ..pyvc.prove import Prover, Contract
+from ..pyvc import circuit_model as CM
+from .common import new_interp, finish_refuted, canary, STD_TRUSTED, STD_ASSUME, run_bounded
 
-LEVEL = 'exploration'
+LEVEL = 'other'
+CIRC = 'cirbo/core/circuit/circuit.py'
+
+
+def same_seq(it, ctx, got, want_kind, st):
+    """`got` must be the documented sequence: identical object, or the interface list of the right circuit"""
+    if want_kind[0] == 'arg':
+        return z3.BoolVal(got is want_kind[1])
+    h, w = want_kind[1], want_kind[2]
+    return z3.BoolVal(isinstance(got, CM.LabelList) and got.h is h and got.w == w)
+
+
+class Wrapper(Contract):
+    relpath = CIRC
+
+    def __init__(self, fn, variant=''):
+        self.fn, self.variant = fn, variant
+        self.qualname = 'Circuit.' + fn
+        self.name = fn + ('/' + variant if variant else '')
+
+    def setup(self, it, ctx):
+        c, h = CM.make_circuit(it, ctx, tag='base')
+        o, ho = CM.make_circuit(it, ctx, tag='other')
+        calls = []
+        sentinel = Obj(c.cls, {})
+
+        def connect_circuit(it_, fv, args, kwargs):
+            calls.append((list(args), dict(kwargs)))
+            return sentinel
+        it.contracts[CIRC + '::Circuit.connect_circuit'] = connect_circuit
+        tc = CM.AbsLabelSeq(ctx, tag='tc')
+        oc = CM.AbsLabelSeq(ctx, tag='oc')
+        nm = Sym(z3.Const('blockname', LabelSort))
+        ap = Sym(z3.Bool('add_prefix'))
+        st = {'h': h, 'ho': ho, 'c': c, 'o': o, 'calls': calls, 'tc': tc, 'oc': oc, 'nm': nm, 'ap': ap, 'sentinel': sentinel}
+        fn, v = self.fn, self.variant
+        if fn == 'connect_left':
+            args, kw = [c, o, tc], {'name': nm, 'add_prefix': ap}
+            st['want'] = dict(this=('arg', tc), other=('iface', ho, 'in'), right=False)
+        elif fn == 'connect_right':
+            args, kw = [c, o, oc], {'name': nm, 'add_prefix': ap}
+            st['want'] = dict(this=('iface', h, 'in'), other=('arg', oc), right=True)
+        elif fn == 'connect_inputs':
+            args, kw = [c, o], {'name': nm, 'add_prefix': ap}
+            st['want'] = dict(this=('iface', h, 'in'), other=('iface', ho, 'in'), right=True)
+        elif fn == 'add_circuit':
+            args, kw = [c, o], {'name': nm, 'add_prefix': ap}
+            st['want'] = dict(this=('empty',), other=('empty',), right=False)
+        else:       # extend_circuit
+            right = 'right' in v
+            kw = {'name': nm, 'add_prefix': ap, 'right_connect': right}
+            want = dict(right=right)
+            if 'this-given' in v:
+                kw['this_connectors'] = tc
+                want['this'] = ('arg', tc)
+            else:
+                want['this'] = ('iface', h, 'in' if right else 'out')
+            if 'other-given' in v:
+                kw['other_connectors'] = oc
+                want['other'] = ('arg', oc)
+            else:
+                want['other'] = ('iface', ho, 'out' if right else 'in')
+            args = [c, o]
+            st['want'] = want
+        return args, kw, st
+
+    def post(self, it, ctx, result, st):
+        calls, want = st['calls'], st['want']
+        yield ('exactly-one-connect_circuit-call', z3.BoolVal(len(calls) == 1))
+        if len(calls) != 1:
+            return
+        a, kw = calls[0]
+        names = ['self', 'other', 'this_connectors', 'other_connectors']
+        got = dict(zip(names, a))
+        got.update(kw)
+        yield ('on-self-and-other', z3.BoolVal(got.get('self') is st['c'] and got.get('other') is st['o']))
+        for side in ('this', 'other'):
+            g = got.get(side + '_connectors')
+            w = want[side]
+            if w[0] == 'empty':
+                ok = hasattr(g, 'items') and len(g.items) == 0 or (isinstance(g, (tuple, list)) and len(g) == 0)
+                yield (f'{side}-connectors-empty', z3.BoolVal(bool(ok)))
+            else:
+                yield (f'{side}-connectors-documented', same_seq(it, ctx, g, w, st), {'witness': 'explicit-empty-connectors' if w[0] == 'arg' else 'defaulted-connectors'})
+        rc = got.get('right_connect', False)
+        yield ('direction', z3.BoolVal(rc is want['right']) if isinstance(rc, bool) else it.as_bool_term(it.eq(rc, want['right'])))
+        yield ('name-and-prefix-forwarded', z3.BoolVal(got.get('name') is st['nm'] and got.get('add_prefix') is st['ap']))
+        yield ('returns-result', z3.BoolVal(result is st['sentinel']))
+
+
+def contracts():
+    cs = [Wrapper('connect_left'), Wrapper('connect_right'), Wrapper('connect_inputs'), Wrapper('add_circuit')]
+    for d in ('left', 'right'):
+        for t in ('this-given', 'this-default'):
+            for o in ('other-given', 'other-default'):
+                cs.append(Wrapper('extend_circuit', f'{d}/{t}/{o}'))
+    return cs
 
 
 def run(rep):
     quick = env.TIER != 'thorough'
     rep.trusted_base = list(STD_TRUSTED)
+    for a in STD_ASSUME:
+        rep.assume(a)
+    rep.assume('connect_circuit itself (label mapping, emission loop, interface recomputation, blocks) has no deductive obligation: bounded stand-in only; its right-connection write is additionally covered by C02\'s bounded histories')
+    it = new_interp()
+    pv = Prover(rep, it, 'C10')
+    for c in contracts():
+        it.contracts.clear()
+        pv.run_contract(c)
+    a = z3.Bool('a')
+    canary(rep, pv, 'C10/canary/left-is-right', [], a == z3.Not(a))
+    refuted = pv.discharge(env.NPROC)
+    finish_refuted(rep, pv, refuted)
     run_bounded(rep, 'C10', quick)
-    rep.extra['explanation'] = 'bounded stand-in only in this build'
+    rep.extra['explanation'] = 'wrappers proved to be the documented special cases of connect_circuit (argument forwarding incl. explicit empty connector lists); connect_circuit: bounded stand-in against the composition oracle.'
